@@ -472,9 +472,25 @@ func (l *Link) DeliverOne() bool {
 			}
 		}
 	}
+	viaUnrel := false
+	if ch, ok := l.b2cMsg[0].(*message.DownstreamChunk); ok && ch != nil && l.unrel != nil {
+		// chunks of a downstream of unreliable QoS travel on the datagram side when the connection has one
+		if d := l.net.s.Broker.downByAlias(l, ch.StreamIDAlias); d != nil && d.QoS == message.QoSUnreliable {
+			viaUnrel = true
+		}
+	}
 	l.b2c = l.b2c[1:]
 	l.b2cMsg = l.b2cMsg[1:]
 	l.rxBytes += uint64(len(b))
+	if viaUnrel {
+		l.unrel.rxb += uint64(len(b))
+		select {
+		case l.unrel.rx <- b:
+		default:
+			l.net.s.HarnessError("link %d datagram rx overflow", l.ID)
+		}
+		return true
+	}
 	select {
 	case l.rx <- b:
 	default:
@@ -568,13 +584,18 @@ func (l *Link) String() string { return fmt.Sprintf("L%d", l.ID) }
 var _ transport.Transport = (*Link)(nil)
 var _ transport.Closer = (*Link)(nil)
 
-// unrelSide is the datagram side channel of a link (encoded frames, lossy).
+// unrelSide is the datagram side channel of a link. Frames written to it join the link's client->broker
+// queue (datagrams that happen to arrive, in order: a legal network); the broker's chunks for downstreams
+// of unreliable QoS are handed to its reader. It can be stalled on its own (a full datagram send queue)
+// while the reliable side keeps working.
 type unrelSide struct {
 	l       *Link
-	c2b     [][]byte
 	rx      chan []byte
 	closed  bool
 	done    chan struct{}
+	stalled bool
+	room    chan struct{}
+	parked  int
 	tx, rxb uint64
 }
 
@@ -607,18 +628,70 @@ func (u *unrelSide) Read() ([]byte, error) {
 func (u *unrelSide) Write(b []byte) error {
 	s := u.l.net.s
 	s.mu.Lock()
+	u.init()
+	for u.stalled && !(u.closed || u.l.isDead || u.l.clientClosed) {
+		if u.room == nil {
+			u.room = make(chan struct{})
+		}
+		ch := u.room
+		u.parked++
+		s.stats["env.datagram-write-blocked"]++
+		s.mu.Unlock()
+		select {
+		case <-ch:
+		case <-u.done:
+		case <-u.l.dead:
+		case <-u.l.closed:
+		}
+		s.mu.Lock()
+		u.parked--
+	}
 	defer s.mu.Unlock()
 	if u.closed || u.l.isDead || u.l.clientClosed {
 		return transport.ErrAlreadyClosed
 	}
 	u.tx += uint64(len(b))
-	u.c2b = append(u.c2b, append([]byte(nil), b...))
+	u.l.c2b = append(u.l.c2b, cframe{b: append([]byte(nil), b...), at: s.Now()})
+	s.stats["env.frames-on-the-unreliable-side"]++
 	return nil
 }
 func (u *unrelSide) Close() error                { return nil }
 func (u *unrelSide) RxBytesCounterValue() uint64 { return u.rxb }
 func (u *unrelSide) TxBytesCounterValue() uint64 { return u.tx }
 func (u *unrelSide) IsUnreliable()               {}
+
+// StallUnreliable / ResumeUnreliable: the datagram side does not take data for a while.
+func (l *Link) StallUnreliable() {
+	if l.unrel == nil {
+		return
+	}
+	l.net.s.mu.Lock()
+	l.unrel.stalled = true
+	l.net.s.mu.Unlock()
+}
+
+func (l *Link) ResumeUnreliable() {
+	if l.unrel == nil {
+		return
+	}
+	l.net.s.mu.Lock()
+	l.unrel.stalled = false
+	if l.unrel.room != nil {
+		close(l.unrel.room)
+		l.unrel.room = nil
+	}
+	l.net.s.mu.Unlock()
+}
+
+// UnreliableParked: datagram writes currently blocked.
+func (l *Link) UnreliableParked() int {
+	if l.unrel == nil {
+		return 0
+	}
+	l.net.s.mu.Lock()
+	defer l.net.s.mu.Unlock()
+	return l.unrel.parked
+}
 
 var _ = io.EOF
 
